@@ -8,7 +8,9 @@ U == << El("i1a", "int", 1, "n1", NoKey), El("i1b", "int", 1, "n1", NoKey), El("
         ArrEl("ar", "ar", <<Sc("int", 1)>>), ArrEl("ax", "ax", <<Sc("int", 1), Sc("str", 1)>>), ArrEl("a13", "a13", <<Sc("int", 1), Sc("int", 3)>>),
         ArrEl("a2", "a2", <<Sc("int", 2)>>), El("m0", "map", 0, "m0", NoKey), El("mxz", "map", 0, "mxz", NoKey),
         \* arrays with a map member (no order on maps): aq2 extends aq -- different data, never to be merged by `unique`
-        ArrEl("aq", "aq", <<Sc("map", 1)>>), ArrEl("aq2", "aq2", <<Sc("map", 1), Sc("int", 2)>>) >>
+        ArrEl("aq", "aq", <<Sc("map", 1)>>), ArrEl("aq2", "aq2", <<Sc("map", 1), Sc("int", 2)>>),
+        \* a negative integer (the harness stores it as i64, next to 1 stored as u64) and a map keyed by it
+        El("in1", "int", -1, "nm1", NoKey), El("mk", "map", 0, "mk", K("int", -1)) >>
 GK == << <<"int", 1>>, <<"int", 2>>, <<"str", 1>> >>          \* the group keys that can occur in U
 Obs == IF IOEnv.OBS = "" THEN <<>> ELSE ndJsonDeserialize(IOEnv.OBS)
 VARIABLES mode, xs, o, done
